@@ -25,6 +25,7 @@ const (
 	fWS     = "gdriver/gtxbuf/workingstate.go"
 	fLibp2p = "tm/tmp2p/tmlibp2p/connection.go"
 	fDaisy  = "tm/tmp2p/tmp2ptest/daisychainnetwork.go"
+	fSMVM   = "tm/tmengine/internal/tmmirror/internal/tmi/statemachineviewmanager.go"
 )
 
 func init() {
@@ -63,6 +64,9 @@ func init() {
 		Mutant{Prop: "C05", Name: "prevote-proof-over-precommit-sign-bytes", File: fMirror, Func: "Mirror.makeNewPrevoteProof",
 			Find: `tmconsensus\.PrevoteSignBytes\(`, Repl: "tmconsensus.PrecommitSignBytes(", Expect: []string{"C05.1", "C05.6"}},
 
+		Mutant{Prop: "C05", Name: "future-vote-keys-chosen-by-sender", File: fMirror, Func: "Mirror.handleFuturePrecommitProofs",
+			Find: `if len\(pubKeys\) == 0 \{`, Repl: "if len(pubKeys) == 0 || p.PubKeyHash != string(vlReq.VRV.ValidatorSet.PubKeyHash) {", Expect: []string{"C05.1"}},
+
 		// ---- C06
 		Mutant{Prop: "C06", Name: "precommit-total-counts-per-target", File: fVS, Func: "VoteSummary.SetPrecommitPowers",
 			Find: `if !counted\.Test\(i\) \{`, Repl: "if valPow > 0 || !counted.Test(i) {", Expect: []string{"C06.1"}},
@@ -89,7 +93,12 @@ func init() {
 		Mutant{Prop: "C09", Name: "new-panic-site-in-kernel", File: fKernel, Func: "Kernel.updateObservers",
 			Find: `if k\.mc == nil \{\n\t\treturn nil`, Repl: "if k.mc == nil {\n\t\tpanic(\"no metrics collector\")", Expect: []string{"C09.3"}},
 
+		Mutant{Prop: "C10", Name: "restart-after-finalization-keeps-stored-round", File: fSM, Func: "StateMachine.sendInitialActionSet",
+			Find: `h\+\+\n\t\tr = 0\n`, Repl: "h++\n", Expect: []string{"C10.3"}},
+
 		// ---- C11
+		Mutant{Prop: "C11", Name: "round-entrance-keeps-queued-jump-ahead", File: fSMVM, Func: "stateMachineViewManager.Reset",
+			Find: `m\.jumpAhead = nil`, Repl: "if m.jumpAhead != nil && m.jumpAhead.Round < re.R {\n\t\tm.jumpAhead = nil\n\t}", Expect: []string{"C11.4"}},
 		Mutant{Prop: "C11", Name: "gossip-copy-aliases-kernel-view", File: fKState, Func: "kState.MarkVotingViewUpdated",
 			Find: `s\.GossipViewManager\.Voting\.VRV = s\.Voting\.Clone\(\)`, Repl: `s.GossipViewManager.Voting.VRV = s.Voting`, Expect: []string{"C11.2", "C11.3"}},
 		Mutant{Prop: "C11", Name: "state-machine-output-never-marked-sent", File: fKernel, Func: "Kernel.mainLoop",
@@ -104,6 +113,8 @@ func init() {
 			Find: `(\tif !key\.Verify\(p\.msg, sig\) \{\n\t\treturn ErrInvalidSignature\n\t\}\n)\n(\tp\.sigs\[string\(sig\)\] = key\n\tp\.bitset\.Set\(uint\(keyIdx\)\)\n)`, Repl: "$2\n$1", Expect: []string{"C13.1"}},
 		Mutant{Prop: "C13", Name: "key-id-length-not-checked", File: fSimple, Func: "SimpleCommonMessageSignatureProof.MergeSparse",
 			Find: `if len\(sparseSig\.KeyID\) != 2 \{`, Repl: `if len(sparseSig.KeyID) > 2 {`, Expect: []string{"C13.2"}},
+		Mutant{Prop: "C13", Name: "key-id-checker-admits-one-past-the-end", File: fSimple, Func: "beUint16KeyLenIDChecker.IsValid",
+			Find: `idx < c\.nKeys`, Repl: "idx <= c.nKeys", Expect: []string{"C13.2"}},
 		Mutant{Prop: "C13", Name: "failed-add-keeps-all-valid-flag", File: fSimple, Func: "SimpleCommonMessageSignatureProof.MergeSparse",
 			Find: `(if err := p\.AddSignature\(sparseSig\.Sig, key\); err != nil \{\n)\t\t\tres\.AllValidSignatures = false\n`, Repl: "$1", Expect: []string{"C13.4"}},
 
@@ -193,6 +204,8 @@ func init() {
 			Find: `rlc\.StepTimer, rlc\.CancelTimer = m\.rt\.PrecommitDelayTimer\(ctx, rlc\.H, rlc\.R\)`, Repl: ``, Expect: []string{"C12.1"}},
 		Mutant{Prop: "C12", Name: "timer-start-case-panics-without-cancel-poll", File: fTimer, Func: "StandardRoundTimer.background",
 			Find: `case req := <-t\.startTimerRequests:\n(\t\t\t//)`, Repl: "case req := <-t.startTimerRequests:\n\t\t\tif req.Dur < 0 {\n\t\t\t\tpanic(errors.New(\"negative\"))\n\t\t\t}\n$1", Expect: []string{"C12.4"}},
+		Mutant{Prop: "C12", Name: "fired-timer-handed-to-cancel-path", File: fTimer, Func: "StandardRoundTimer.background",
+			Find: `(case <-timer\.C:\n)(\t\t\t// The timer elapsed\.)`, Repl: "${1}\t\t\tselect {\n\t\t\tcase <-cancelTimer:\n\t\t\t\tgoto RUNNING\n\t\t\tdefault:\n\t\t\t}\n$2", Expect: []string{"C12.6"}},
 		Mutant{Prop: "C12", Name: "cancel-closes-elapsed-channel", File: fTimer, Func: "StandardRoundTimer.background",
 			Find: `// Don't close the channel on cancel\.`, Repl: "close(timerElapsed)", Expect: []string{"C12.5"}},
 	)
